@@ -148,6 +148,17 @@ fn keys_for<V: Fv>(seed: u64, nheavy: usize, nlight: usize, heavy: &mut Shards, 
             // decoded copies, and of decoded copies that are used while the original is not: per-object state (caches)
             // must not leak into equality or into the bytes
             let (sk_fresh, pk_fresh) = (sk.clone(), pk.clone());
+            // a clone carries the same signing tree, bit for bit
+            {
+                let tb = |k: &V::Sk| -> Vec<u64> {
+                    V::sk_tree(k).iter().flat_map(|nd| match nd {
+                        verif::TreeNode::Branch(l) => l.iter().flat_map(|c| [c.0.to_bits(), c.1.to_bits()]).collect::<Vec<u64>>(),
+                        verif::TreeNode::Leaf(a, b) => vec![a.0.to_bits(), a.1.to_bits(), b.0.to_bits(), b.1.to_bits()],
+                    }).collect()
+                };
+                let same = tb(&sk_fresh) == tb(&sk) && sk_fresh == sk && V::sk_to_bytes(&sk_fresh) == V::sk_to_bytes(&sk);
+                light.emit(json!({"ev":"sigrt","n":V::N,"siglen":V::SIG_LEN,"rt_equal":same,"tag":"clone-equals-original","detail":"secret key clone: basis, bytes and signing tree"}));
+            }
             let msg2 = b"used before the round trip".to_vec();
             let r = guarded(|| {
                 let mut failed: Vec<&str> = vec![];
